@@ -44,7 +44,7 @@ theorem layS_insert (sz : Tag → Nat) (l : List Tag) (hl : LayS sz l) (t : Tag)
 
 theorem addTag_layS (sz : Tag → Nat) (r : R) (t : Tag) (hl : LayS sz r.tags) (hpo : r.po ≤ t.off) (hlen : r.tags.length < tagMaxCount)
     (ht : 0 < sz t) (hd : ∀ x ∈ r.tags, DisjS sz t x ∧ 0 < sz x) :
-    LayS sz (addTag r t).tags ∧ (∀ x ∈ (addTag r t).tags, x = t ∨ x ∈ r.tags) ∧ (∀ x ∈ r.tags, x ∈ (addTag r t).tags) ∧
+    LayS sz (addTag r t).tags ∧ t ∈ (addTag r t).tags ∧ (∀ x ∈ (addTag r t).tags, x = t ∨ x ∈ r.tags) ∧ (∀ x ∈ r.tags, x ∈ (addTag r t).tags) ∧
     (addTag r t).tags.length = r.tags.length + 1 ∧ Same r { addTag r t with tags := r.tags } := by
   unfold addTag
   rw [if_neg (by omega), if_pos hlen]
@@ -52,7 +52,7 @@ theorem addTag_layS (sz : Tag → Nat) (r : R) (t : Tag) (hl : LayS sz r.tags) (
   | some res =>
     obtain ⟨i, hi1, rfl, hlo, hhi⟩ := insertFrom_spec t r.tags hl.sorted r.tags.length (Nat.le_refl _) (by simp) res hi
     dsimp only
-    refine ⟨layS_insert sz _ hl t ht hd i hlo hhi, ?_, ?_, ?_, ⟨rfl, rfl, rfl, rfl, rfl, rfl, rfl⟩⟩
+    refine ⟨layS_insert sz _ hl t ht hd i hlo hhi, by simp, ?_, ?_, ?_, ⟨rfl, rfl, rfl, rfl, rfl, rfl, rfl⟩⟩
     · intro x hx
       rw [List.mem_append, List.mem_cons] at hx
       rcases hx with hx | rfl | hx
@@ -71,7 +71,7 @@ theorem addTag_layS (sz : Tag → Nat) (r : R) (t : Tag) (hl : LayS sz r.tags) (
     cases htags : r.tags with
     | nil =>
       dsimp only
-      refine ⟨by unfold LayS; simp, ?_, (by intro x hx; cases hx), by simp, ⟨rfl, rfl, rfl, rfl, by simp [htags], rfl, rfl⟩⟩
+      refine ⟨by unfold LayS; simp, by simp, ?_, (by intro x hx; cases hx), by simp, ⟨rfl, rfl, rfl, rfl, by simp [htags], rfl, rfl⟩⟩
       intro x hx; simp at hx; exact Or.inl hx
     | cons h tl =>
       dsimp only
@@ -99,7 +99,7 @@ theorem addTag_layS (sz : Tag → Nat) (r : R) (t : Tag) (hl : LayS sz r.tags) (
       rw [if_pos hlt]
       dsimp only
       rw [htags] at hl hd
-      refine ⟨?_, ?_, fun x hx => List.mem_cons_of_mem _ hx, by simp, ⟨rfl, rfl, rfl, rfl, by simp [htags], rfl, rfl⟩⟩
+      refine ⟨?_, by simp, ?_, fun x hx => List.mem_cons_of_mem _ hx, by simp, ⟨rfl, rfl, rfl, rfl, by simp [htags], rfl, rfl⟩⟩
       · unfold LayS at *
         rw [List.pairwise_cons]
         refine ⟨?_, hl⟩
@@ -131,14 +131,17 @@ theorem entriesLoop_gen {F : Bytes} (tb : Tables) (ifd : Ifd) (buf : Bytes) (D :
     entriesLoop tb ifd buf n i r = .ok r' →
     Coh F r' ∧ Exact tb ex0 F r' ∧ r'.po = r.po ∧ r'.pos = 0 ∧ r'.exifLength = r.exifLength ∧ readLimit r' = readLimit r ∧ LayS sz r'.tags ∧
     (∀ x ∈ r'.tags, Old x ∨ ∃ k, k < i + n ∧ entryAt ifd buf k = .ok (some x) ∧ x.isEmbedded = false) ∧
-    (∀ x ∈ r.tags, x ∈ r'.tags) := by
+    (∀ x ∈ r.tags, x ∈ r'.tags) ∧
+    (∀ x ∈ r.parsed, x ∈ r'.parsed) ∧
+    (∀ x ∈ r'.parsed, x ∈ r.parsed ∨ ∃ k, k < i + n ∧ entryAt ifd buf k = .ok (some x)) ∧
+    (∀ k t, i ≤ k → k < i + n → entryAt ifd buf k = .ok (some t) → t.isEmbedded = false → t ∈ r'.tags) := by
   intro n
   induction n with
   | zero =>
     intro i r r' hc he _ hpos hlay hmem _ _ _ _ h
     unfold Exif.entriesLoop at h
     simp only [Outcome.ok.injEq] at h; subst h
-    exact ⟨hc, he, rfl, hpos, rfl, rfl, hlay, hmem, fun x hx => hx⟩
+    exact ⟨hc, he, rfl, hpos, rfl, rfl, hlay, hmem, fun x hx => hx, fun x hx => hx, fun x hx => Or.inl hx, fun k t h1 h2 => by omega⟩
   | succ n ih =>
     intro i r r' hc he hD hpos hlay hmem hcap hgood hdisj hold h
     have hcap' : ∀ l : List Tag, LayS sz l → (∀ x ∈ l, Old x ∨ ∃ k, k < i + 1 + n ∧ entryAt ifd buf k = .ok (some x) ∧ x.isEmbedded = false) → l.length ≤ 83 := by
@@ -154,25 +157,40 @@ theorem entriesLoop_gen {F : Bytes} (tb : Tables) (ifd : Ifd) (buf : Bytes) (D :
       · exact Or.inl ho
       · exact Or.inr ⟨k, by omega, hr⟩
     have fin : ∀ (r2 : R), r2.po = r.po → r2.exifLength = r.exifLength → readLimit r2 = readLimit r →
-        (∀ x ∈ r.tags, x ∈ r2.tags) →
+        (∀ x ∈ r.tags, x ∈ r2.tags) → (∀ x ∈ r.parsed, x ∈ r2.parsed) →
+        (∀ x ∈ r2.parsed, x ∈ r.parsed ∨ ∃ k, k < i + (n + 1) ∧ entryAt ifd buf k = .ok (some x)) →
+        (∀ t, entryAt ifd buf i = .ok (some t) → t.isEmbedded = false → t ∈ r2.tags) →
         (Coh F r' ∧ Exact tb ex0 F r' ∧ r'.po = r2.po ∧ r'.pos = 0 ∧ r'.exifLength = r2.exifLength ∧ readLimit r' = readLimit r2 ∧ LayS sz r'.tags ∧
           (∀ x ∈ r'.tags, Old x ∨ ∃ k, k < i + 1 + n ∧ entryAt ifd buf k = .ok (some x) ∧ x.isEmbedded = false) ∧
-          (∀ x ∈ r2.tags, x ∈ r'.tags)) →
+          (∀ x ∈ r2.tags, x ∈ r'.tags) ∧ (∀ x ∈ r2.parsed, x ∈ r'.parsed) ∧
+          (∀ x ∈ r'.parsed, x ∈ r2.parsed ∨ ∃ k, k < i + 1 + n ∧ entryAt ifd buf k = .ok (some x)) ∧
+          (∀ k t, i + 1 ≤ k → k < i + 1 + n → entryAt ifd buf k = .ok (some t) → t.isEmbedded = false → t ∈ r'.tags)) →
         Coh F r' ∧ Exact tb ex0 F r' ∧ r'.po = r.po ∧ r'.pos = 0 ∧ r'.exifLength = r.exifLength ∧ readLimit r' = readLimit r ∧ LayS sz r'.tags ∧
           (∀ x ∈ r'.tags, Old x ∨ ∃ k, k < i + (n + 1) ∧ entryAt ifd buf k = .ok (some x) ∧ x.isEmbedded = false) ∧
-          (∀ x ∈ r.tags, x ∈ r'.tags) := by
-      intro r2 e1 e2 e3 hsub ⟨a, b, c, d, e4, f, g, hh, hs⟩
-      refine ⟨a, b, by rw [c, e1], d, by rw [e4, e2], by rw [f, e3], g, ?_, fun x hx => hs x (hsub x hx)⟩
-      intro x hx
-      rcases hh x hx with ho | ⟨k, hk, hr⟩
-      · exact Or.inl ho
-      · exact Or.inr ⟨k, by omega, hr⟩
+          (∀ x ∈ r.tags, x ∈ r'.tags) ∧ (∀ x ∈ r.parsed, x ∈ r'.parsed) ∧
+          (∀ x ∈ r'.parsed, x ∈ r.parsed ∨ ∃ k, k < i + (n + 1) ∧ entryAt ifd buf k = .ok (some x)) ∧
+          (∀ k t, i ≤ k → k < i + (n + 1) → entryAt ifd buf k = .ok (some t) → t.isEmbedded = false → t ∈ r'.tags) := by
+      intro r2 e1 e2 e3 hsub hp1 hp2 hin ⟨a, b, c, d, e4, f, g, hh, hs, hq1, hq2, hq3⟩
+      refine ⟨a, b, by rw [c, e1], d, by rw [e4, e2], by rw [f, e3], g, ?_, fun x hx => hs x (hsub x hx), fun x hx => hq1 x (hp1 x hx), ?_, ?_⟩
+      · intro x hx
+        rcases hh x hx with ho | ⟨k, hk, hr⟩
+        · exact Or.inl ho
+        · exact Or.inr ⟨k, by omega, hr⟩
+      · intro x hx
+        rcases hq2 x hx with ho | ⟨k, hk, hr⟩
+        · exact hp2 x ho
+        · exact Or.inr ⟨k, by omega, hr⟩
+      · intro k t h1 h2 he ho
+        by_cases hki : k = i
+        · subst hki; exact hs t (hin t he ho)
+        · exact hq3 k t (by omega) (by omega) he ho
     have hold' : ∀ x, Old x → 0 < sz x ∧ ∀ k t, k < i + 1 + n → entryAt ifd buf k = .ok (some t) → t.isEmbedded = false → DisjS sz t x := by
       intro x hx; exact ⟨(hold x hx).1, fun k t hk => (hold x hx).2 k t (by omega)⟩
     cases ot with
     | none =>
       dsimp only at h
-      exact fin r rfl rfl rfl (fun x hx => hx) (ih (i + 1) r r' hc he hD hpos hlay hmem' hcap'
+      exact fin r rfl rfl rfl (fun x hx => hx) (fun x hx => hx) (fun x hx => Or.inl hx)
+        (fun t he => by rw [hent] at he; simp at he) (ih (i + 1) r r' hc he hD hpos hlay hmem' hcap'
         (fun k t hk => hgood k t (by omega)) (fun k k' t t' hk hk' => hdisj k k' t t' (by omega) (by omega)) hold' h)
     | some t =>
       dsimp only at h
@@ -184,7 +202,18 @@ theorem entriesLoop_gen {F : Bytes} (tb : Tables) (ifd : Ifd) (buf : Bytes) (D :
         have hc1 : Coh F r1 := ⟨by rw [hs.rest, hs.po]; exact hc.rest, by rw [hs.po]; exact hc.le, hc.small⟩
         have he1 : Exact tb ex0 F r1 := parseTag_quiet_exact r r1 t (hg.1 hemb) he h1
         have hl1 : readLimit r1 = readLimit r := by unfold readLimit; rw [hs.buffered]
+        have hpar : r1.parsed = r.parsed ++ [t] := by
+          obtain ⟨r0, h0, rfl⟩ := parseTag_ok h1
+          show r0.parsed ++ [t] = _
+          rw [(FrO.parseTag0 tb r t r0 h0).parsed]
         exact fin r1 hs.po hs.exl hl1 (by rw [hs.tags]; exact fun x hx => hx)
+          (by rw [hpar]; intro x hx; exact List.mem_append_left _ hx)
+          (by
+            rw [hpar]; intro x hx
+            rcases List.mem_append.mp hx with hx | hx
+            · exact Or.inl hx
+            · simp only [List.mem_singleton] at hx; rw [hx]; exact Or.inr ⟨i, by omega, hent⟩)
+          (fun t' he' ho' => by rw [hent] at he'; simp only [Outcome.ok.injEq, Option.some.injEq] at he'; rw [← he'] at ho'; rw [hemb] at ho'; cases ho')
           (ih (i + 1) r1 r' hc1 he1 (by rw [hs.po]; exact hD) (by rw [hs.pos]; exact hpos) (by rw [hs.tags]; exact hlay)
             (by rw [hs.tags]; exact hmem') hcap'
             (fun k t hk hd => hgood k t (by omega) hd)
@@ -203,7 +232,7 @@ theorem entriesLoop_gen {F : Bytes} (tb : Tables) (ifd : Ifd) (buf : Bytes) (D :
           have := hcap r.tags hlay (fun x hx => by rcases hmem x hx with ho | ⟨k, hk, hr⟩; exact Or.inl ho; exact Or.inr ⟨k, by omega, hr⟩)
           unfold tagMaxCount; omega
         have ha := addTag_layS sz r t hlay (by omega) hlen84 hszt hd
-        obtain ⟨hl2, hm2, hsub2, hlen2, hs⟩ := ha
+        obtain ⟨hl2, htin, hm2, hsub2, hlen2, hs⟩ := ha
         have hpo1 : (addTag r t).po = r.po := hs.po
         have hrest1 : (addTag r t).rest = r.rest := hs.rest
         have hexl1 : (addTag r t).exifLength = r.exifLength := hs.exl
@@ -219,6 +248,8 @@ theorem entriesLoop_gen {F : Bytes} (tb : Tables) (ifd : Ifd) (buf : Bytes) (D :
           · exact Or.inr ⟨i, by omega, hent, hemb'⟩
           · exact hmem' x hx
         exact fin (addTag r t) hpo1 hexl1 hl1 hsub2
+          (by rw [(addTag_keep r t).2]; exact fun x hx => hx) (by rw [(addTag_keep r t).2]; exact fun x hx => Or.inl hx)
+          (fun t' he' _ => by rw [hent] at he'; simp only [Outcome.ok.injEq, Option.some.injEq] at he'; rw [← he']; exact htin)
           (ih (i + 1) (addTag r t) r' hc1 he1 (by rw [hpo1]; exact hD) (by rw [hpos1]; exact hpos) hl2 hmem1 hcap'
             (fun k t hk hd => hgood k t (by omega) hd)
             (fun k k' t t' hk hk' => hdisj k k' t t' (by omega) (by omega)) hold' h)
@@ -226,6 +257,10 @@ theorem entriesLoop_gen {F : Bytes} (tb : Tables) (ifd : Ifd) (buf : Bytes) (D :
 /-- the out-of-line entries of the directory at d, as the reader decodes them -/
 def IsEntry (F : Bytes) (ifd : Ifd) (d cnt : Nat) (x : Tag) : Prop :=
   ∃ k, k < cnt ∧ entryAt ifd ((F.drop (d + 2)).take (cnt * 12)) k = .ok (some x) ∧ x.isEmbedded = false
+
+/-- the entries of the directory at d (embedded or not), as the reader decodes them -/
+def AnyEntry (F : Bytes) (ifd : Ifd) (d cnt : Nat) (x : Tag) : Prop :=
+  ∃ k, k < cnt ∧ entryAt ifd ((F.drop (d + 2)).take (cnt * 12)) k = .ok (some x)
 
 /-- what reading a directory at d needs, with extents given by `sz` (entries may be pointers) -/
 structure DirOK (F : Bytes) (ifd : Ifd) (d cnt exl lim : Nat) (sz : Tag → Nat) : Prop where
@@ -260,7 +295,9 @@ theorem readIfdHeader_gen {F : Bytes} (tb : Tables) (ifd : Ifd) (r r1 : R) (e1 :
     (hold : ∀ x, Old x → 0 < sz x ∧ ∀ t, IsEntry F ifd r.po cnt t → DisjS sz t x)
     (h : readIfdHeader tb r ifd = .ok (r1, e1)) :
     Coh F r1 ∧ Exact tb ex0 F r1 ∧ r1.po ≤ r.po + 2 + 12 * cnt + 4 ∧ r1.pos = 0 ∧ r1.exifLength = r.exifLength ∧ readLimit r1 = readLimit r ∧
-    LayS sz r1.tags ∧ (∀ x ∈ r1.tags, Old x ∨ IsEntry F ifd r.po cnt x) ∧ (∀ x ∈ r.tags, x ∈ r1.tags) := by
+    LayS sz r1.tags ∧ (∀ x ∈ r1.tags, Old x ∨ IsEntry F ifd r.po cnt x) ∧ (∀ x ∈ r.tags, x ∈ r1.tags) ∧
+    (∀ x ∈ r.parsed, x ∈ r1.parsed) ∧ (∀ x ∈ r1.parsed, x ∈ r.parsed ∨ AnyEntry F ifd r.po cnt x) ∧ e1 = none ∧
+    (∀ x, IsEntry F ifd r.po cnt x → x ∈ r1.tags) := by
   have hF := hd.inFile
   have hx := hd.inExif
   have hcnt := hd.count
@@ -296,11 +333,19 @@ theorem readIfdHeader_gen {F : Bytes} (tb : Tables) (ifd : Ifd) (r r1 : R) (e1 :
     (fun k t hk hdd => hd.good k t (by omega) hdd)
     (fun k k' t t' hk hk' => hd.disj k k' t t' (by omega) (by omega))
     (fun x hx => ⟨(hold x hx).1, fun k t hk e o => (hold x hx).2 t ⟨k, by omega, e, o⟩⟩) hloop
-  obtain ⟨hc4, he4, hpo4, hpos4, hexl4, hlim4, hlay4, hmem4, hsub4⟩ := hgen
+  obtain ⟨hc4, he4, hpo4, hpos4, hexl4, hlim4, hlay4, hmem4, hsub4, hpar4, hprov4, hins4⟩ := hgen
+  have hins5 : ∀ x, IsEntry F ifd r.po cnt x → x ∈ r3.tags := by
+    intro x hx; obtain ⟨k, hk, e, o⟩ := hx; exact hins4 k x (Nat.zero_le _) (by omega) e o
   rw [hpo3] at hpo4
   rw [hk3.exl] at hexl4
   rw [hlim3] at hlim4
   rw [hk3.tags] at hsub4
+  rw [hk3.parsed] at hpar4 hprov4
+  have hprov5 : ∀ x ∈ r3.parsed, x ∈ r.parsed ∨ AnyEntry F ifd r.po cnt x := by
+    intro x hx
+    rcases hprov4 x hx with ho | ⟨k, hk, e⟩
+    · exact Or.inl ho
+    · exact Or.inr ⟨k, by omega, e⟩
   have hmem5 : ∀ x ∈ r3.tags, Old x ∨ IsEntry F ifd r.po cnt x := by
     intro x hx
     rcases hmem4 x hx with ho | ⟨k, hk, e, o⟩
@@ -327,10 +372,11 @@ theorem readIfdHeader_gen {F : Bytes} (tb : Tables) (ifd : Ifd) (r r1 : R) (e1 :
     rw [← hnx.1]
     have hl5 : readLimit (fastRead r3 4).r = readLimit r := by unfold readLimit at hlim4 ⊢; rw [hk5.buffered]; exact hlim4
     refine ⟨hc5, he4.keep hk5, by rw [hr5.2.2, hpo4]; omega, by rw [hk5.pos]; exact hpos4,
-      by rw [hk5.exl]; exact hexl4, hl5, by rw [hk5.tags]; exact hlay4, by rw [hk5.tags]; exact hmem5, by rw [hk5.tags]; exact hsub4⟩
+      by rw [hk5.exl]; exact hexl4, hl5, by rw [hk5.tags]; exact hlay4, by rw [hk5.tags]; exact hmem5, by rw [hk5.tags]; exact hsub4,
+      by rw [hk5.parsed]; exact hpar4, by rw [hk5.parsed]; exact hprov5, hnx.2.symm, by rw [hk5.tags]; exact hins5⟩
   · simp only [Outcome.ok.injEq, Prod.mk.injEq] at hnx
     rw [← hnx.1]
-    exact ⟨hc4, he4, by rw [hpo4]; omega, hpos4, hexl4, hlim4, hlay4, hmem5, hsub4⟩
+    exact ⟨hc4, he4, by rw [hpo4]; omega, hpos4, hexl4, hlim4, hlay4, hmem5, hsub4, hpar4, hprov5, hnx.2.symm, hins5⟩
 
 /-! ### the walk over IFD0 with pointers to flat Exif and GPS directories -/
 
@@ -436,7 +482,12 @@ theorem childType_ne_ifd0 (p : Tag) (hp : IsPtr p) : ifd0 ≠ p.childIfd.typ := 
   · rw [h1]; decide
 
 theorem ifdLoop_nested {F : Bytes} {exl lim : Nat} {W : Tag → Prop} (w : World F exl lim W) (tb : Tables) :
-    ∀ (f : Nat) (r r' : R), NInv tb ex0 F exl lim W r → ifdLoop tb f r = .ok r' → Coh F r' ∧ Exact tb ex0 F r' := by
+    ∀ (f : Nat) (r r' : R), NInv tb ex0 F exl lim W r → ifdLoop tb f r = .ok r' → Coh F r' ∧ Exact tb ex0 F r' ∧
+      (∀ x ∈ r.parsed, x ∈ r'.parsed) ∧
+      (∀ x ∈ r.tags.drop r.pos, x.typ ≠ tIfd → x ∈ r'.parsed) ∧
+      (∀ p ∈ r.tags.drop r.pos, IsPtr p → ∀ c, IsEntry F p.childIfd p.off (ptrCount F p) c → c ∈ r'.parsed) ∧
+      (∀ x ∈ r'.parsed, x ∈ r.parsed ∨ x ∈ r.tags.drop r.pos ∨
+        ∃ p ∈ r.tags.drop r.pos, IsPtr p ∧ AnyEntry F p.childIfd p.off (ptrCount F p) x) := by
   intro f
   induction f with
   | zero => intro r r' _ h; unfold Exif.ifdLoop at h; cases h
@@ -463,20 +514,46 @@ theorem ifdLoop_nested {F : Bytes} {exl lim : Nat} {W : Tag → Prop} (w : World
         have hpf := parseTag_forward tb r r1 t inv.coh inv.exact htfwd hv.2.2.2.1 (by rw [inv.exl]; exact hv.2.2.2.2.1)
           (by rw [inv.lim]; exact hv.2.2.2.2.2) h1
         obtain ⟨hc1, he1, hpo1, htags, hpos, hexl, hl1⟩ := hpf
-        apply ih { r1 with pos := r1.pos + 1 } r' _ h
         have hq : ({ r1 with pos := r1.pos + 1 } : R).tags.drop ({ r1 with pos := r1.pos + 1 } : R).pos = r.tags.drop (r.pos + 1) := by
           show r1.tags.drop (r1.pos + 1) = _
           rw [htags, hpos]
-        refine ⟨⟨hc1.rest, hc1.le, hc1.small⟩, ⟨he1.reads, he1.ref⟩, hexl.trans inv.exl, hl1.trans inv.lim, ?_, ?_, ?_, ?_⟩
-        · rw [hq]; exact hlayQ.2
-        · rw [hq]; intro x hx; exact inv.inW x (by rw [hdrop]; exact List.mem_cons_of_mem _ hx)
-        · rw [hq]; intro x hx
-          have := hlayQ.1 x hx
-          rw [extent_value F t hv.1] at this
-          show r1.po ≤ x.off
-          omega
-        · rw [hq]; intro p hp hip x hx
-          exact inv.fresh p (by rw [hdrop]; exact List.mem_cons_of_mem _ hp) hip x (by rw [hdrop]; exact List.mem_cons_of_mem _ hx)
+        have hinv' : NInv tb ex0 F exl lim W { r1 with pos := r1.pos + 1 } := by
+          refine ⟨⟨hc1.rest, hc1.le, hc1.small⟩, ⟨he1.reads, he1.ref⟩, hexl.trans inv.exl, hl1.trans inv.lim, ?_, ?_, ?_, ?_⟩
+          · rw [hq]; exact hlayQ.2
+          · rw [hq]; intro x hx; exact inv.inW x (by rw [hdrop]; exact List.mem_cons_of_mem _ hx)
+          · rw [hq]; intro x hx
+            have := hlayQ.1 x hx
+            rw [extent_value F t hv.1] at this
+            show r1.po ≤ x.off
+            omega
+          · rw [hq]; intro p hp hip x hx
+            exact inv.fresh p (by rw [hdrop]; exact List.mem_cons_of_mem _ hp) hip x (by rw [hdrop]; exact List.mem_cons_of_mem _ hx)
+        obtain ⟨c', e', l1, l2, l3, l4⟩ := ih { r1 with pos := r1.pos + 1 } r' hinv' h
+        rw [hq] at l2 l3 l4
+        have hpar : r1.parsed = r.parsed ++ [t] := by
+          obtain ⟨r0, h0, rfl⟩ := parseTag_ok h1
+          show r0.parsed ++ [t] = _
+          rw [(FrO.parseTag0 tb r t r0 h0).parsed]
+        have l1' : ∀ x ∈ r1.parsed, x ∈ r'.parsed := l1
+        refine ⟨c', e', fun x hx => l1' x (by rw [hpar]; exact List.mem_append_left _ hx), ?_, ?_, ?_⟩
+        · intro x hx hxt
+          rw [hdrop, List.mem_cons] at hx
+          rcases hx with rfl | hx
+          · exact l1' x (by rw [hpar]; simp)
+          · exact l2 x hx hxt
+        · intro p hp hip c hc
+          rw [hdrop, List.mem_cons] at hp
+          rcases hp with rfl | hp
+          · exact absurd hip.1 hv.1
+          · exact l3 p hp hip c hc
+        · intro x hx
+          rcases l4 x hx with h1' | h2' | ⟨p, hp, hip, ha⟩
+          · have : x ∈ r.parsed ++ [t] := by rw [← hpar]; exact h1'
+            rcases List.mem_append.mp this with h | h
+            · exact Or.inl h
+            · simp only [List.mem_singleton] at h; rw [h]; exact Or.inr (Or.inl (by rw [hdrop]; simp))
+          · exact Or.inr (Or.inl (by rw [hdrop]; exact List.mem_cons_of_mem _ h2'))
+          · exact Or.inr (Or.inr ⟨p, by rw [hdrop]; exact List.mem_cons_of_mem _ hp, hip, ha⟩)
       · -- a pointer to a flat directory
         obtain ⟨hip, hfd⟩ := hp
         rw [if_pos hip.1] at h
@@ -525,8 +602,8 @@ theorem ifdLoop_nested {F : Bytes} {exl lim : Nat} {W : Tag → Prop} (w : World
             have hci := entry_ifd _ _ _ _ hce
             exact w.disj c x hcW (hOldW x hx) (fun heq => hfresh2 x hx (by rw [← heq]; exact hci))⟩)
           hh3
-        obtain ⟨hc3, he3, hpo3, hpos3, hexl3, hlim3, hlay3, hmem3, hsub3⟩ := hgen
-        rw [hpo2, hpo1] at hpo3 hmem3
+        obtain ⟨hc3, he3, hpo3, hpos3, hexl3, hlim3, hlay3, hmem3, hsub3, hpar3, hprov3, _, hins3⟩ := hgen
+        rw [hpo2, hpo1] at hpo3 hmem3 hprov3 hins3
         have hext : extent F t = 2 + 12 * ptrCount F t + 4 := extent_ptr F t hip.1
         -- t is still the head of the pending list
         have hchildD : ∀ c, IsEntry F t.childIfd t.off (ptrCount F t) c → t.off + extent F t ≤ c.off ∧ c.typ ≠ tIfd := by
@@ -549,7 +626,6 @@ theorem ifdLoop_nested {F : Bytes} {exl lim : Nat} {W : Tag → Prop} (w : World
             · exact w.extent_pos x (hOldW x ho)
             · exact w.extent_pos x (w.child t htW hip x hc)
         obtain ⟨tl, htl⟩ := hhead
-        apply ih { x3 with pos := x3.pos + 1 } r' _ h
         have hq : ({ x3 with pos := x3.pos + 1 } : R).tags.drop ({ x3 with pos := x3.pos + 1 } : R).pos = tl := by
           show x3.tags.drop (x3.pos + 1) = tl
           rw [hpos3, htl]; rfl
@@ -569,43 +645,98 @@ theorem ifdLoop_nested {F : Bytes} {exl lim : Nat} {W : Tag → Prop} (w : World
               omega
             · exact Or.inl ho
           · exact Or.inr hc
-        refine ⟨⟨hc3.rest, hc3.le, hc3.small⟩, ⟨he3.reads, he3.ref⟩, hexl3.trans hx2, hlim3.trans hl2, ?_, ?_, ?_, ?_⟩
-        · rw [hq]; exact hlay3'.2
-        · rw [hq]; intro x hx
-          rcases hmemtl x hx with ho | hc
-          · exact inv.inW x (by rw [hdrop]; exact List.mem_cons_of_mem _ ho)
-          · exact w.child t htW hip x hc
-        · rw [hq]; intro x hx
-          have := hlay3'.1 x hx
-          show x3.po ≤ x.off
-          omega
-        · rw [hq]; intro q hq' hiq x hx
-          have hqold : q ∈ r.tags.drop (r.pos + 1) := by
-            rcases hmemtl q hq' with ho | hc
-            · exact ho
-            · exact absurd hiq.1 (hchildD q hc).2
-          have hqW : W q := inv.inW q (by rw [hdrop]; exact List.mem_cons_of_mem _ hqold)
-          rcases hmemtl x hx with ho | hc
-          · exact inv.fresh q (by rw [hdrop]; exact List.mem_cons_of_mem _ hqold) hiq x (by rw [hdrop]; exact List.mem_cons_of_mem _ ho)
-          · obtain ⟨k, _, hce, _⟩ := hc
-            rw [entry_ifd _ _ _ _ hce]
-            apply childType_ne t q hip hiq
-            intro hid
-            have heq := w.uniq t q htW hqW hip hiq hid
-            have h1 := hlayQ.1 q hqold
-            have h2 := w.extent_pos t htW
-            rw [← heq] at h1
+        have hinv' : NInv tb ex0 F exl lim W { x3 with pos := x3.pos + 1 } := by
+          refine ⟨⟨hc3.rest, hc3.le, hc3.small⟩, ⟨he3.reads, he3.ref⟩, hexl3.trans hx2, hlim3.trans hl2, ?_, ?_, ?_, ?_⟩
+          · rw [hq]; exact hlay3'.2
+          · rw [hq]; intro x hx
+            rcases hmemtl x hx with ho | hc
+            · exact inv.inW x (by rw [hdrop]; exact List.mem_cons_of_mem _ ho)
+            · exact w.child t htW hip x hc
+          · rw [hq]; intro x hx
+            have := hlay3'.1 x hx
+            show x3.po ≤ x.off
             omega
-    · simp only [Outcome.ok.injEq] at h; rw [← h]; exact ⟨inv.coh, inv.exact⟩
+          · rw [hq]; intro q hq' hiq x hx
+            have hqold : q ∈ r.tags.drop (r.pos + 1) := by
+              rcases hmemtl q hq' with ho | hc
+              · exact ho
+              · exact absurd hiq.1 (hchildD q hc).2
+            have hqW : W q := inv.inW q (by rw [hdrop]; exact List.mem_cons_of_mem _ hqold)
+            rcases hmemtl x hx with ho | hc
+            · exact inv.fresh q (by rw [hdrop]; exact List.mem_cons_of_mem _ hqold) hiq x (by rw [hdrop]; exact List.mem_cons_of_mem _ ho)
+            · obtain ⟨k, _, hce, _⟩ := hc
+              rw [entry_ifd _ _ _ _ hce]
+              apply childType_ne t q hip hiq
+              intro hid
+              have heq := w.uniq t q htW hqW hip hiq hid
+              have h1 := hlayQ.1 q hqold
+              have h2 := w.extent_pos t htW
+              rw [← heq] at h1
+              omega
+        obtain ⟨c', e', l1, l2, l3, l4⟩ := ih { x3 with pos := x3.pos + 1 } r' hinv' h
+        rw [hq] at l2 l3 l4
+        have l1' : ∀ x ∈ x3.parsed, x ∈ r'.parsed := l1
+        have hparR : (resetPosition r1).parsed = r.parsed := (reset_keep r1).2.trans hkd.parsed
+        have htl_of_rest : ∀ x ∈ r.tags.drop (r.pos + 1), x ∈ tl := by
+          intro x hx
+          have hx3 : x ∈ x3.tags := hsub3 x (by rw [hQ2]; exact List.mem_cons_of_mem _ hx)
+          rw [htl, List.mem_cons] at hx3
+          rcases hx3 with rfl | h'
+          · have := hlayQ.1 x hx
+            have := w.extent_pos x htW
+            omega
+          · exact h'
+        refine ⟨c', e', fun x hx => l1' x (hpar3 x (by rw [hparR]; exact hx)), ?_, ?_, ?_⟩
+        · intro x hx hxt
+          rw [hdrop, List.mem_cons] at hx
+          rcases hx with rfl | hx
+          · exact absurd hip.1 hxt
+          · exact l2 x (htl_of_rest x hx) hxt
+        · intro p hp hipp c hc
+          rw [hdrop, List.mem_cons] at hp
+          rcases hp with rfl | hp
+          · -- the children of t itself were queued and then parsed
+            have hc3' : c ∈ x3.tags := hins3 c hc
+            rw [htl, List.mem_cons] at hc3'
+            rcases hc3' with rfl | h'
+            · exact absurd hipp.1 (hchildD c hc).2
+            · exact l2 c h' (hchildD c hc).2
+          · exact l3 p (htl_of_rest p hp) hipp c hc
+        · intro x hx
+          rcases l4 x hx with h1' | h2' | ⟨p, hp, hipp, ha⟩
+          · rcases hprov3 x h1' with h | h
+            · exact Or.inl (by rw [← hparR]; exact h)
+            · exact Or.inr (Or.inr ⟨t, by rw [hdrop]; simp, hip, h⟩)
+          · rcases hmemtl x h2' with h | h
+            · exact Or.inr (Or.inl (by rw [hdrop]; exact List.mem_cons_of_mem _ h))
+            · obtain ⟨k, hk, e, _⟩ := h
+              exact Or.inr (Or.inr ⟨t, by rw [hdrop]; simp, hip, ⟨k, hk, e⟩⟩)
+          · rcases hmemtl p hp with h | h
+            · exact Or.inr (Or.inr ⟨p, by rw [hdrop]; exact List.mem_cons_of_mem _ h, hipp, ha⟩)
+            · exact absurd hipp.1 (hchildD p h).2
+    · rename_i hge
+      simp only [Outcome.ok.injEq] at h; rw [← h]
+      have hnil : r.tags.drop r.pos = [] := List.drop_eq_nil_of_le (by omega)
+      refine ⟨inv.coh, inv.exact, fun x hx => hx, ?_, ?_, fun x hx => Or.inl hx⟩
+      · intro x hx; rw [hnil] at hx; cases hx
+      · intro p hp; rw [hnil] at hp; cases hp
+
+/-- what the parse record of a complete run over a root directory contains -/
+structure Complete (F : Bytes) (ifd : Ifd) (d cnt : Nat) (before after : List Tag) : Prop where
+  mono : ∀ x ∈ before, x ∈ after
+  vals : ∀ x, IsEntry F ifd d cnt x → x.typ ≠ tIfd → x ∈ after
+  kids : ∀ p, IsEntry F ifd d cnt p → IsPtr p → ∀ c, IsEntry F p.childIfd p.off (ptrCount F p) c → c ∈ after
+  prov : ∀ x ∈ after, x ∈ before ∨ AnyEntry F ifd d cnt x ∨
+    ∃ p, IsEntry F ifd d cnt p ∧ IsPtr p ∧ AnyEntry F p.childIfd p.off (ptrCount F p) x
 
 /-- readIfd on a root directory whose entries are value tags or pointers to flat Exif / GPS directories, everything in
-a forward layout without overlap (`World`): coherent reader, every read exact -/
+a forward layout without overlap (`World`): coherent reader, every read exact, and the parse record is complete -/
 theorem readIfd_nested {F : Bytes} {W : Tag → Prop} (tb : Tables) (fuel : Nat) (ifd : Ifd) (r r' : R) (e : Option ErrKind) (cnt : Nat)
     (w : World F r.exifLength (readLimit r) W)
     (hc : Coh F r) (he : Exact tb ex0 F r) (htags : r.tags = []) (hpos : r.pos = 0)
     (hroot : DirOK F ifd r.po cnt r.exifLength (readLimit r) (extent F))
     (hrootW : ∀ x, IsEntry F ifd r.po cnt x → W x)
-    (h : readIfd tb fuel r ifd = .ok (r', e)) : Coh F r' ∧ Exact tb ex0 F r' := by
+    (h : readIfd tb fuel r ifd = .ok (r', e)) : Coh F r' ∧ Exact tb ex0 F r' ∧ Complete F ifd r.po cnt r.parsed r'.parsed := by
   unfold Exif.readIfd at h
   obtain ⟨p, hp, h⟩ := bind_ok h
   obtain ⟨r1, e1⟩ := p
@@ -613,16 +744,16 @@ theorem readIfd_nested {F : Bytes} {W : Tag → Prop} (tb : Tables) (fuel : Nat)
     (by rw [htags]; unfold LayS; simp) (by rw [htags]; intro x hx; cases hx)
     (fun l hl hm => w.cap l hl (fun x hx => by rcases hm x hx with ho | hc'; exact absurd ho id; exact hrootW x hc'))
     hroot (fun x hx => absurd hx id) hp
-  obtain ⟨hc1, he1, hpo1, hpos1, hexl1, hlim1, hlay1, hmem1, _⟩ := hgen
+  obtain ⟨hc1, he1, hpo1, hpos1, hexl1, hlim1, hlay1, hmem1, _, hpar1, hprov1, hnone, hins1⟩ := hgen
   dsimp only at h
-  split at h
-  · simp only [Outcome.ok.injEq, Prod.mk.injEq] at h; rw [← h.1]; exact ⟨hc1, he1⟩
-  · obtain ⟨r2, h2, h⟩ := bind_ok h
-    simp only [Outcome.ok.injEq, Prod.mk.injEq] at h; rw [← h.1]
-    have hent : ∀ x ∈ r1.tags, IsEntry F ifd r.po cnt x := by
-      intro x hx; rcases hmem1 x hx with ho | hc'; exact absurd ho id; exact hc'
-    apply ifdLoop_nested w tb fuel r1 r2 _ h2
-    have hq : r1.tags.drop r1.pos = r1.tags := by rw [hpos1]; rfl
+  subst hnone
+  dsimp only at h
+  obtain ⟨r2, h2, h⟩ := bind_ok h
+  simp only [Outcome.ok.injEq, Prod.mk.injEq] at h; rw [← h.1]
+  have hent : ∀ x ∈ r1.tags, IsEntry F ifd r.po cnt x := by
+    intro x hx; rcases hmem1 x hx with ho | hc'; exact absurd ho id; exact hc'
+  have hq : r1.tags.drop r1.pos = r1.tags := by rw [hpos1]; rfl
+  have hinv : NInv tb ex0 F r.exifLength (readLimit r) W r1 := by
     refine ⟨hc1, he1, hexl1, hlim1, by rw [hq]; exact hlay1, by rw [hq]; exact fun x hx => hrootW x (hent x hx), ?_, ?_⟩
     · rw [hq]; intro x hx
       obtain ⟨k, hk, hke, hko⟩ := hent x hx
@@ -633,6 +764,18 @@ theorem readIfd_nested {F : Bytes} {W : Tag → Prop} (tb : Tables) (fuel : Nat)
       obtain ⟨k', _, hke', _⟩ := hent p hp
       rw [entry_ifd _ _ _ _ hke, ← entry_ifd _ _ _ _ hke', hip.2.1]
       exact childType_ne_ifd0 p hip
+  obtain ⟨c', e', l1, l2, l3, l4⟩ := ifdLoop_nested w tb fuel r1 r2 hinv h2
+  rw [hq] at l2 l3 l4
+  refine ⟨c', e', fun x hx => l1 x (hpar1 x hx), fun x hx hxt => l2 x (hins1 x hx) hxt,
+    fun p hp hip c hc => l3 p (hins1 p hp) hip c hc, ?_⟩
+  intro x hx
+  rcases l4 x hx with h1' | h2' | ⟨p, hp, hip, ha⟩
+  · rcases hprov1 x h1' with h | h
+    · exact Or.inl h
+    · exact Or.inr (Or.inl h)
+  · obtain ⟨k, hk, e, _⟩ := hent x h2'
+    exact Or.inr (Or.inl ⟨k, hk, e⟩)
+  · exact Or.inr (Or.inr ⟨p, hent p hp, hip, ha⟩)
 
 /-- **A TIFF with IFD0, Exif and GPS directories in a forward layout is read exactly** (DecodeTiff on the whole file F) -/
 theorem decodeTiff_nested (tb : Tables) (F : Bytes) (buffered : Bool) (h : Hdr) (cnt : Nat) (r' : R) (e : Option ErrKind)
@@ -641,7 +784,8 @@ theorem decodeTiff_nested (tb : Tables) (F : Bytes) (buffered : Bool) (h : Hdr) 
     (hroot : DirOK F { off := 0, base := 0, order := h.order, typ := h.firstIfdType, idx := 0 } h.firstIfd cnt (4 * 1024 * 1024)
       (if buffered then bufioSize else scratchSize) (extent F))
     (hrootW : ∀ x, IsEntry F { off := 0, base := 0, order := h.order, typ := h.firstIfdType, idx := 0 } h.firstIfd cnt x → W x)
-    (hres : decodeTiff tb F buffered h = .ok (r', e)) : Coh F r' ∧ Exact tb { imageType := h.imageType } F r' := by
+    (hres : decodeTiff tb F buffered h = .ok (r', e)) : Coh F r' ∧ Exact tb { imageType := h.imageType } F r' ∧
+      Complete F { off := 0, base := 0, order := h.order, typ := h.firstIfdType, idx := 0 } h.firstIfd cnt [] r'.parsed := by
   unfold Exif.decodeTiff at hres
   dsimp only at hres
   have hc0 : Coh F { rest := F, po := 0, exifLength := 4 * 1024 * 1024, buffered := buffered, ex := { imageType := h.imageType } } :=
@@ -656,16 +800,17 @@ theorem decodeTiff_nested (tb : Tables) (F : Bytes) (buffered : Bool) (h : Hdr) 
   split at hres
   · simp only [Outcome.ok.injEq, Prod.mk.injEq] at hres
     rename_i r1 e1 hdd
-    rw [hdd] at hcd hkd
-    rw [← hres.1]
-    exact ⟨hcd, he0.keep hkd⟩
+    rw [hdd] at hde
+    exact absurd hde.1 (by simp)
   · rename_i r1 hdd
     rw [hdd] at hcd hkd hde
     dsimp only at hde hcd hkd
     have hpo : r1.po = h.firstIfd := by rw [hde.2]; simp
     have hlim : readLimit r1 = (if buffered then bufioSize else scratchSize) := by unfold readLimit; rw [hkd.buffered]
-    exact readIfd_nested tb _ _ r1 r' e cnt (by rw [hkd.exl, hlim]; exact w) hcd (he0.keep hkd)
+    have := readIfd_nested tb _ _ r1 r' e cnt (by rw [hkd.exl, hlim]; exact w) hcd (he0.keep hkd)
       hkd.tags hkd.pos (by rw [hpo, hkd.exl, hlim]; exact hroot) (by rw [hpo]; exact hrootW) hres
+    rw [hpo, hkd.parsed] at this
+    exact this
 
 /-- the same for DecodeJPEGIfd (JPEG APP1 payload F, Exif length from the segment) -/
 theorem decodeJPEGIfd_nested (tb : Tables) (F : Bytes) (buffered : Bool) (h : Hdr) (cnt : Nat) (r' : R) (e : Option ErrKind)
@@ -697,9 +842,9 @@ theorem decodeJPEGIfd_nested (tb : Tables) (F : Bytes) (buffered : Bool) (h : Hd
     hkd.tags hkd.pos (by rw [hpo, hkd.exl, hlim]; exact hroot) (by rw [hpo]; exact hrootW) h2
   dsimp only at hres
   split at hres
-  · simp only [Outcome.ok.injEq, Prod.mk.injEq] at hres; rw [← hres.1]; exact hn
+  · simp only [Outcome.ok.injEq, Prod.mk.injEq] at hres; rw [← hres.1]; exact ⟨hn.1, hn.2.1⟩
   · simp only [Outcome.ok.injEq, Prod.mk.injEq] at hres; rw [← hres.1]
-    exact ⟨hn.1.discard _, hn.2.keep (Keep.discard r2 _)⟩
+    exact ⟨hn.1.discard _, hn.2.1.keep (Keep.discard r2 _)⟩
 
 /-- the same for DecodeIfd (CR3 CMT boxes): the stream starts at the first directory, F is the payload from its Tiff
 header on -/
@@ -717,7 +862,8 @@ theorem decodeIfd_nested (tb : Tables) (F rest : Bytes) (buffered : Bool) (h : H
   have hlim : readLimit ({ rest := rest, po := h.firstIfd, exifLength := h.exifLength, buffered := buffered, ex := { imageType := h.imageType } } : R)
       = (if buffered then bufioSize else scratchSize) := rfl
   -- the model passes fuelFor rest; any fuel will do
-  exact readIfd_nested tb _ _ _ r' e cnt (by rw [hlim]; exact w) hc0 (Exact.init tb F { rest := rest, po := h.firstIfd, exifLength := h.exifLength, buffered := buffered, ex := { imageType := h.imageType } } rfl rfl) rfl rfl (by rw [hlim]; exact hroot) hrootW hres
+  have := readIfd_nested tb _ _ _ r' e cnt (by rw [hlim]; exact w) hc0 (Exact.init tb F { rest := rest, po := h.firstIfd, exifLength := h.exifLength, buffered := buffered, ex := { imageType := h.imageType } } rfl rfl) rfl rfl (by rw [hlim]; exact hroot) hrootW hres
+  exact ⟨this.1, this.2.1⟩
 
 /-- the capacity condition of `World` for a layout given as a list of at most 83 tags -/
 theorem cap_of_list (F : Bytes) (ws : List Tag) (hlen : ws.length ≤ 83) (W : Tag → Prop) (hW : ∀ x, W x → x ∈ ws)
